@@ -487,7 +487,7 @@ def units(tier, seed):
     else:
         for rem in range(128):
             us.append({'kind': 'enum', 'must': True, 'length': 4, 'mod': 128, 'rem': rem})
-        n = 5000
+        n = 25000
     for k in range(n):
         us.append({'kind': 'cache', 'seed': seed, 'start': k * 60, 'count': 60})
         us.append({'kind': 'msg', 'seed': seed, 'start': k * 10, 'count': 10})
